@@ -366,9 +366,18 @@ namespace cnl {
         {
             // truncate, then step down where truncation rounded up
             auto const truncated{static_cast<result>(from)};
-            return (static_cast<Input>(truncated) > from)
-                         ? _impl::from_rep<result>(static_cast<ResultRep>(_impl::to_rep(truncated) - 1))
-                         : truncated;
+            if constexpr (ResultRadix == 2) {
+                return (static_cast<Input>(truncated) > from)
+                             ? _impl::from_rep<result>(static_cast<ResultRep>(_impl::to_rep(truncated) - 1))
+                             : truncated;
+            } else {
+                // the re-scaled result is not exact in floating point for such a radix: compare in units
+                // of the result, with the same product that the truncating conversion forms
+                return (static_cast<Input>(_impl::to_rep(truncated))
+                        > from * _impl::power_value<Input, -ResultExponent, ResultRadix>())
+                             ? _impl::from_rep<result>(static_cast<ResultRep>(_impl::to_rep(truncated) - 1))
+                             : truncated;
+            }
         }
     };
 
